@@ -269,7 +269,7 @@ def mp_in_out(m):
             routes_in.append(x)
             routes_out.append(x if reach else {'prefix': x['prefix'], 'label': [WITHDRAW_LABEL]})
         elif fam in ('vpn4', 'vpn6'):
-            x = {'label': [r['label']], 'rd': rd_text(r['rd']), 'prefix': prefix_any(r['p'])}
+            x = {'label': list(r['labels']), 'rd': rd_text(r['rd']), 'prefix': prefix_any(r['p'])}
             routes_in.append(x)
             routes_out.append(x if reach else dict(x, label=[WITHDRAW_LABEL]))
         elif fam == 'evpn':
